@@ -144,8 +144,8 @@ def minimise(pool, pid: str, trace: dict, sig: str, budget_evals=1500) -> dict:
     start = trace.get("start", [{"deck": "default"}])
     if any(s.get("deck", "default") != "default" or s.get("xform") or s.get("form") for s in start):
         simp.append(dict(trace, start=[{"deck": "default"}]))
-        simp.append(dict(trace, start=[{k: v for k, v in s.items() if k in ("deck", "xform")} for s in start]))
         simp.append(dict(trace, start=[{k: v for k, v in s.items() if k in ("deck",)} for s in start]))
+        simp.append(dict(trace, start=[{k: v for k, v in s.items() if k not in ("form", "pos")} for s in start]))
     for t in simp:
         if _fails_same(pool, pid, [t], sig) is not None:
             trace = t
